@@ -1,6 +1,8 @@
 """Configuration of ./check C18 (see cfg/README)."""
 
-PROP = {'modules': ['SfntV.Props.C18'],
+PROP = {'drive': ['Faults'],
+ 'harness_files': ['area_faults.go'],
+ 'modules': ['SfntV.Props.C18'],
  'required_theorems': ['C18_write',
                        'C18_write_refused',
                        'C18_write_honest',
@@ -12,7 +14,9 @@ PROP = {'modules': ['SfntV.Props.C18'],
                        'C18_truncated',
                        'C18_reader_fault',
                        'C18_limited',
-                       'C18_sources'],
+                       'C18_sources',
+                       'C18_loop_shape',
+                       'C18_scalers'],
  # budget = number of corpus fonts / table sets; every fault point k of each is enumerated
  'areas': [('faults', 6, 40)],
  'thorough_seeds': 2,
